@@ -107,3 +107,18 @@ func (r *ResponseFilterWriter) Write(b []byte) (int, error) {
 	}
 	return r.ResponseWriter.Write(b)
 }
+
+// Flush implements http.Flusher. If the handler flushes before it has
+// written a header, the header must still go through WriteHeader above:
+// otherwise the underlying ResponseWriter commits it as it is, and a body
+// compressed afterwards is sent without its Content-Encoding.
+func (r *ResponseFilterWriter) Flush() {
+	if !r.statusCodeWritten {
+		r.WriteHeader(http.StatusOK)
+	}
+	if r.shouldCompress {
+		r.gzipResponseWriter.Flush()
+		return
+	}
+	r.ResponseWriterWrapper.Flush()
+}
